@@ -11,6 +11,10 @@ EDGE_NAMES = ["type", "match", "case", "_", "_private", "__dunder__", "\u0928\u0
 INVALID_NAMES = ["1bad", "class", "a b", "", "a-b", " a", "b ", "9", "for", "None", "True", "lambda", "await", "a.b", "\u00b2", "x!"]
 PICKLABLE_KINDS = ["int", "str", "list", "dict", "tuple", "box", "none", "float", "bytes", "nested"]
 UNPICKLABLE_KINDS = ["lambda", "gen", "lock", "badreduce", "badreduce_t", "localcls"]
+# size extremes: large values (pickle framing flushes every 64 KiB), deep nesting, values with shared sub-objects
+# (memo references), large unpicklable values whose failure comes late (after several flushed frames)
+BIG_PICKLABLE_KINDS = ["biglist", "bigstr", "bigbytes", "deep", "shared", "shared", "bigdict"]
+BIG_UNPICKLABLE_KINDS = ["bigunp", "bigunp_dict", "bigunp_str", "toodeep"]
 MODULES = [("m0", "m0.py"), ("m1", "m1.py"), ("pkg.m0", "pkg/m0.py"), ("pkg.m1", "pkg/m1.py"),
            ("pkg.sub.m0", "pkg/sub/m0.py"), ("pkg.sub.util", "pkg/sub/util.py")]
 UMASKS = [0o022, 0o077, 0o000, 0o027, 0o177, 0o777, 0o002]
@@ -41,6 +45,8 @@ class Prog:
         r = self.r
         if force_kind:
             k = force_kind
+        elif r.random() < .03:
+            k = r.choice(BIG_PICKLABLE_KINDS + BIG_UNPICKLABLE_KINDS)
         elif r.random() < self.unp_rate:
             k = r.choice(UNPICKLABLE_KINDS)
         else:
@@ -53,7 +59,25 @@ class Prog:
         names = r.sample(NAMES, r.randint(lo, hi))
         if hi and r.random() < .35:
             names += r.sample(EDGE_NAMES, r.randint(1, 2))
-        return [(n, self.value()) for n in names]
+        block = [(n, self.value()) for n in names]
+        k = r.random()
+        if hi and k < .05:
+            # a large unpicklable value, then (in f_locals order) values with shared sub-objects / a value shared
+            # with another variable of the same frame
+            u = self.value(r.choice(BIG_UNPICKLABLE_KINDS))
+            sh = self.value("shared")
+            block += [("big_u", u), ("after_u", sh), ("after_v", self.value(r.choice(["dict", "shared", "str", "biglist"]))), ("alias_u", sh)]
+            if r.random() < .5:
+                block.append(("big_w", self.value(r.choice(BIG_UNPICKLABLE_KINDS))))
+                block.append(("after_w", self.value("shared")))
+        elif hi and k < .07:
+            # hundreds of locals in one frame, a few values shared by all of them
+            pool = [self.value() for _ in range(r.randint(2, 6))] + [self.value("shared")]
+            block += [("q%d" % j, r.choice(pool)) for j in range(r.randint(120, 320))]
+        elif block and k < .17:
+            # the same object bound to two names
+            block.append(("alias", r.choice(block)[1]))
+        return block
 
     # -- source emission
     def mod(self, name):
@@ -295,25 +319,38 @@ def gen_selector(r, hints, script=False):
         return {"kind": "none"}, None
     if k < .25:
         n = r.choice([1, 1, 2, 3, 4, 5, 8, 20, 50])
-        return {"kind": "num", "n": n}, (str(n) if script or r.random() < .3 else n)
+        return {"kind": "num", "n": n}, ((r.choice(["", "", " "]) + str(n) + r.choice(["", "", " "])) if script or r.random() < .3 else n)
     if k < .45:
         p = gen_pat(r, hints)
         arg = render_pat(p)
+        if r.random() < (.4 if script else .1):
+            arg = r.choice([" ", "  "]) + arg + r.choice([" ", ""])
         if not script and r.random() < .3:
             arg = [arg] if r.random() < .5 else {"tuple": [arg]}
         return {"kind": "list", "ps": [p]}, arg
+    def pad(x):
+        # blanks around a whole frame / around the separators are not part of it
+        if r.random() < (.4 if script else .12):
+            x = r.choice([" ", "  ", ""]) + x + r.choice([" ", "", "  "])
+        return x
     if k < .62:
         ps = [gen_pat(r, hints) for _ in range(r.randint(2, 4))]
         args = [render_pat(p) for p in ps]
-        return {"kind": "list", "ps": ps}, (",".join(args) if script else args)
+        if script:
+            out = args[0]
+            for a in args[1:]:
+                out += r.choice([",", ",", ", ", " ,", " , "]) + a
+            return {"kind": "list", "ps": ps}, pad(out)
+        return {"kind": "list", "ps": ps}, args
     if k < .87:
         p, q = gen_pat(r, hints), gen_pat(r, hints)
-        arg = render_pat(p) + ".." + render_pat(q)
+        dd = r.choice(["..", "..", " .. ", ".. ", " .."]) if r.random() < (.4 if script else .12) else ".."
+        arg = pad(render_pat(p) + dd + render_pat(q))
         if not script and r.random() < .15:
             arg = [arg]
         return {"kind": "range", "p": p, "q": q}, arg
     p = gen_pat(r, hints)
-    return {"kind": "open", "p": p}, render_pat(p) + ".."
+    return {"kind": "open", "p": p}, pad(render_pat(p) + r.choice(["..", "..", " .."]))
 
 
 MALFORMED_SELECTORS = [
@@ -376,7 +413,20 @@ def gen_filter_arg(r, script):
     else:
         names = gen_names(r)
     if script:
-        return ",".join(names) if names else r.choice(["", " "])
+        # the spellings a command line sees: blanks around commas and at the ends, repeated / trailing commas,
+        # literal quote characters
+        if not names:
+            return r.choice(["", " ", ",", " , "])
+        if r.random() < .1:
+            names = names + [r.choice(['"a"', "'b'", '"secret'])]
+        out = names[0]
+        for n in names[1:]:
+            out += r.choice([",", ",", ", ", " ,", " , ", ",  ", ",,", ", ,"]) + n
+        if r.random() < .3:
+            out = r.choice([" ", "  ", "\t"]) + out
+        if r.random() < .3:
+            out += r.choice([" ", ",", ", ", " ,"])
+        return out
     if len(names) == 1 and r.random() < .5:
         return names[0]
     if r.random() < .08:
@@ -423,7 +473,7 @@ def gen_case(seed, i, stream=None):
     r = cm.rng(seed, "c17", i)
     if stream is None:
         k = i % 20
-        stream = "malformed" if k in (3, 9, 15) else ("script" if k == 7 else ("debugger" if k == 12 else "main"))
+        stream = "malformed" if k in (3, 9, 15) else ("script" if k in (7, 13, 18) else ("debugger" if k == 12 else "main"))
     script = stream == "script"
     prog, hints = gen_program(r)
     c = {"i": i, "stream": stream, "prog": prog, "script": script, "hints": hints}
@@ -444,4 +494,10 @@ def gen_case(seed, i, stream=None):
         # a directory name with regex metacharacters (known finding N2: the debugger default uses the path as a regex)
         c["root"] = r.choice(["s+rc", "s(r)c", "s[rc", "s*c", "src++"])
     c["queries"] = gen_queries(r, 3)
+    if script:
+        # '--opt=value' or '--opt value' per option
+        c["argv_style"] = [r.choice(["eq", "eq", "sep"]) for _ in range(3)]
+        # the exclude filter is the privacy-relevant one: make it as frequent as the include filter on the CLI
+        if c["variables"] is not None and c["exclude"] is None and r.random() < .5:
+            c["variables"], c["exclude"] = None, c["variables"]
     return c
